@@ -44,4 +44,4 @@ No network. Use this Go toolchain and environment in every shell call:
   GO=/root/go/pkg/mod/golang.org/toolchain@v0.0.1-go1.24.0.linux-amd64/bin/go   # plain `go` is too old
 A handful of tests fail in this sandbox regardless of any change (ICMP tests: no ICMP sockets; two internal/filetransfer browse tests that assume the temp dir is not under /tmp; TestMultiTransport_* and TestUDPRelay_MaxAssociationsLimit are flaky when fixed ports are busy) - ignore those. The machine is shared and loaded; be patient with builds.
 
-Verify all three conditions yourself before finishing (build, stock tests pass with the change, demo fails with / passes without the change - use `git stash` to test without). Finish with a short report: the change, why it breaks the property, what it needs to manifest, and the verification you did.""")
+Verify all three conditions yourself before finishing (build, stock tests pass with the change, demo fails with / passes without the change - do NOT use `git stash` (the stash is shared between all worktrees of the repository and other agents use it concurrently); to test without your change use `git diff > /tmp/seedout/<ID>/p.diff; git apply -R /tmp/seedout/<ID>/p.diff; ...; git apply /tmp/seedout/<ID>/p.diff`). Finish with a short report: the change, why it breaks the property, what it needs to manifest, and the verification you did.""")
